@@ -1,7 +1,7 @@
 (* C11 — every sentence of the CDCN grammar is accepted with its intended meaning.
    Statements only; the proofs are in LiteralProofs.v, ParserProofs.v, CdcnProofs.v, Grammar.v. *)
 From Coq Require Import String.
-From Verif Require Import Base Params Value Lexer Literals Parser LexerProofs ParserProofs CdcnProofs LiteralProofs ParseRun Grammar Complete LexBridge LexBridge2 LexBridge3 LexRender.
+From Verif Require Import Base Params Value Lexer Literals Parser LexerProofs ParserProofs CdcnProofs LiteralProofs ParseRun Grammar Complete LexBridge LexBridge2 LexBridge3 StripInv LexRender.
 Close Scope string_scope.
 Open Scope Z_scope.
 
@@ -164,6 +164,18 @@ Theorem C11_parse_render : forall fparse crank ts dts v eols eof,
   parse_source fparse crank (render_toks ts) = PValue v.
 Proof. exact parse_render. Qed.
 
+(* derivations do not depend on lines and positions, so the derivation may be given on any
+   tokens with the types and texts of the rendering's visible tokens *)
+Theorem C11_dcoll_strip : forall fparse crank ts ts' v,
+  dcoll fparse crank ts v -> map strip ts' = map strip ts -> dcoll fparse crank ts' v.
+Proof. exact dcoll_strip. Qed.
+Theorem C11_parse_render_strip : forall fparse crank ts dts v n,
+  scannable ts ->
+  map (fun x => (fst x, rename (snd x))) (filter visible ts) = map strip dts ++ repeat (TEOL, zs "<EOLN>") n ->
+  dcoll fparse crank dts v ->
+  parse_source fparse crank (render_toks ts) = PValue v.
+Proof. exact parse_render_strip. Qed.
+
 Theorem C11_first_words : forall rest,
   try_types scan_order_t (zs "true" ++ rest) = Some (TBoolean, 4%nat) /\
   try_types scan_order_t (zs "false" ++ rest) = Some (TBoolean, 5%nat) /\
@@ -238,4 +250,6 @@ Print Assumptions C11_first_string_full.
 Print Assumptions C11_lex_render.
 Print Assumptions C11_place_strip.
 Print Assumptions C11_parse_render.
+Print Assumptions C11_dcoll_strip.
+Print Assumptions C11_parse_render_strip.
 Print Assumptions C11_first_words.
